@@ -893,7 +893,7 @@ def gen_cases(ctx):
     rng = ctx.rng
     quick = ctx.tier == 'quick'
     cases = [dict(c) for c in CORPUS]
-    nres = 150 if quick else 9000
+    nres = 150 if quick else 3000
     kinds = ['equal', 'approx', 'student', 'student', 'bonf', 'holm', 'meta', 'tasks', 'tests', 'bylabels']
     for i in range(nres):
         kind = kinds[i % len(kinds)]
@@ -906,7 +906,7 @@ def gen_cases(ctx):
         else:
             case = gen_labels_case(rng)
         cases.append(case)
-    for i in range(80 if quick else 3000):
+    for i in range(80 if quick else 1500):
         cases.append(gen_str_case(rng, safe=i % 2 == 0))
     return cases
 
